@@ -351,6 +351,22 @@ def work_cli(task):
                     how = 0
                     q = " ".join(extra) + " -e " + q
                     break
+        if ok and i % 3 == 0:
+            # several inputs: a failure on one of them decides the exit status wherever it comes in the row -- before
+            # inputs that match, between them, after them
+            fq = "(|A| if (A 0 ?eq) then (drop drop) else A)"
+            for vals in ("(0, 1)", "(1, 0)", "(1, 0, 2)", "(0, 1, 2)", "(0, 0)", "(2, 1, 0)"):
+                for extra in ([], ["-c"], ["-s"]):
+                    rc2, out2, err2 = run_cli(extra + ["--a", vals, "-e", fq])
+                    ev.case(key=("cli-multi", vals, tuple(extra)), nontrivial=True)
+                    ev.label("cli:several-inputs-one-fails")
+                    if rc2 != 2:
+                        ok = False
+                        err, rc, how = err2, rc2, 0
+                        q = " ".join(extra) + " --a '" + vals + "' -e " + fq
+                        break
+                if not ok:
+                    break
         if not ok:
             ev.violations.append({"property": PID, "query": q, "cli_mode": ["-e", "positional", "-f"][how],
                                   "reason": "CLI: exit status %d, stderr %r" % (rc, err[:300]),
